@@ -68,6 +68,18 @@ theorem history_safe (env : Env) (s : Sched) (ops : List Op) (hinv : Inv env s) 
     ∃ s' outs, run env s ops = .ok (s', outs) ∧ Inv env s' :=
   run_safe env henv ops s hinv hops
 
+/-- **The ring position over histories of any length.**  `cur_bucket` (a `uint8_t` in the C code) is,
+after any history of admissible operations, the start position plus the number of
+`tdma_sched_advance()` calls modulo 25 — after 255, 256, 511, ... advances as well: the value stored by
+`sched->cur_bucket = wrap_bucket(1)` never exceeds 24, so the `uint8_t` never rolls over. -/
+theorem cur_bucket_ring (env : Env) (s : Sched) (ops : List Op) (hinv : Inv env s) (henv : EnvOk env)
+    (hops : ∀ op ∈ ops, OpOk env op) :
+    ∃ s' outs, run env s ops = .ok (s', outs) ∧
+      s'.cur = (s.cur + advancesBefore ops ops.length) % 25 ∧ s'.cur < 25 := by
+  obtain ⟨s', outs, h1, h2, h3⟩ := run_cur env henv ops s hinv hops
+  refine ⟨s', outs, h1, ?_, h2.1.2.1⟩
+  rw [h3, advancesBefore, List.take_length]
+
 /-- callbacks that do not re-enter the scheduler are the special case in which every hypothesis about
 calls made from inside holds trivially -/
 theorem noReentry_special_case (env : Env) (h : NoReentry env) :
@@ -745,6 +757,12 @@ example : OpOk env0 (.scheduleSet 23 setEx 77) ∧ 23 + markers setEx < 25 ∧
 example : obs env0 (init 7) ([.scheduleSet 23 setEx 77] ++ frames 25) =
     some ([(1, [])] ++ (List.replicate 23 [(0, []), (0, [])]).flatten ++
       [(2, [2, 1]), (0, []), (1, [3]), (0, [])]) := by decide +kernel
+
+-- a long history: 300 frames from ring position 7, an item scheduled 24 frames ahead in frame 250 (pending
+-- while the number of advances passes 255) runs in frame 274 and in no other; cur_bucket ends at (7 + 300) % 25
+example : (run env0 (init 7) (frames 250 ++ Op.schedule 24 (.fn 3) 1 2 3 0 :: frames 50)).toOption.map
+    (fun r => (r.1.cur, (r.2.map (ranCount ⟨.fn 3, 1, 2, 3, 0⟩)).sum,
+      (r.2.map (ranCount ⟨.fn 3, 1, 2, 3, 0⟩))[500 + 1 + 48]?)) = some (7, 1, some 1) := by decide +kernel
 
 /-! ### callbacks that schedule on the fly (each history below was also run on the real C code) -/
 
